@@ -12,6 +12,19 @@ refused half way is the ONE keyed finding combine.locktime-partition.grouping), 
 every operand kept, operands' serialisations unchanged and no shared mutable object after every role, identity
 (tx.id / unique_id) preserved by sign / finalize / to_v0 / to_v2 over role sequences of length <= 6,
 `assert_signatures_only` refuses every single-field tampering.
+Version 0 on the wire (`wirev0` / `readv0`): the model's writeV0 / readV0 against btclib's own bytes, taken apart with
+btclib's map readers (transaction in PSBT_GLOBAL_UNSIGNED_TX, maps read under psbt_version=0) and against
+Psbt.parse(serialize()).  A signer's answer read whole (`asigonly`, `asigned`, `newsigners`): the models of
+assert_signatures_only (with the verification of what arrived), assert_signed and new_signers against the real functions;
+the two parameters of those models are handed over on the line: V (does this ONE signature verify: btclib's own
+_assert_ecdsa_sigs_verify / _assert_taproot_sigs_verify on a copy of the psbt holding that entry alone) and O (the
+master fingerprint the psbt attributes a key to, looked up by the harness from the BIP174/371/373 fields).  Requests with
+p2wpkh, key-path p2tr and SCRIPT-PATH p2tr inputs (two `<key> OP_CHECKSIG` leaves); answers honest / partial / echoed /
+swapped / with one added signature corrupted / sig-hash type stated / finalized / origin missing / non-signature field
+tampered.  Oracle roles.alias-all: every public function of the anchor modules with a Psbt parameter and every public
+method / property / constructor of Psbt, FOUND BY INTROSPECTION (a new one without an argument recipe is a harness
+error), on signed psbts: arguments unchanged, result shares no mutable object, writing all over the result (deeply)
+changes nothing that was handed in; the five documented in-place Updater functions (IN_PLACE) only have to return None.
 An op line ends with `#<base64 pickle>` of the real operands, so that a line can be replayed on its own.
 """
 from __future__ import annotations
@@ -48,7 +61,9 @@ RULE = ("one seeded PRNG; a family = one base psbt (vendored BIP174/370/371/373/
         "mergeable fields are partitioned over k<=5 copies; every permutation and every bracketing for k<=4 "
         "in thorough, k<=3 in quick (above: sampled); non-trivial = the implementation did not refuse; distinct = "
         "distinct (stream, op line without its replay payload)")
-TRUSTED = ["hand-written model Model/C11/{Combine,Roles}.lean tied by correspondence; field lists and rules are generated",
+TRUSTED = ["hand-written model Model/C11/{Combine,Roles,Wire,Signed}.lean tied by correspondence; field lists and rules are generated",
+           "whether ONE signature verifies (V) and which fingerprint a key is attributed to (O) are parameters of the "
+           "signer-answer models; the harness computes V with btclib's own verifiers on singletons and O from the psbt's fields",
            "txid modelled as injective (the model compares unsigned transactions, not hashes)",
            "validity of operands (assert_valid) and of signatures is not modelled: generators feed valid operands",
            "Python object aliasing is observed (serialisations before/after, id() of mutable parts), not modelled"]
@@ -188,6 +203,19 @@ def impl(line: str) -> str:
             return "ok " + render(d["psbt"].to_v0())
         if op == "tov2":
             return "ok " + render(d["psbt"].to_v2())
+        if op == "wirev0":
+            return render_wire(d["psbt"])
+        if op == "readv0":
+            return "ok " + render(Psbt.parse(d["psbt"].serialize()))
+        if op == "asigonly":
+            assert_signatures_only(d["request"], d["returned"])
+            return "ok"
+        if op == "asigned":
+            M.assert_signed(d["psbt"], allow_partial=d["allow_partial"])
+            return "ok"
+        if op == "newsigners":
+            return "ok " + ",".join(str(x) for x in sorted(int.from_bytes(f, "big") for f in
+                                                            M.new_signers(d["request"], d["returned"])))
     except Exception as e:  # noqa: BLE001
         return _err(e)
     return "bad-op"
@@ -201,6 +229,108 @@ def render_tx(p: Psbt, for_id: bool) -> str:
     vin = ",".join(f"{slot(i.prev_out.tx_id)}:{i.prev_out.vout}:{i.sequence}" for i in tx.vin)
     vout = ",".join(f"{o.value}:{o.script_pub_key.script.hex()}" for o in tx.vout)
     return f"ok ver=i{tx.version} lock={tx.lock_time} vin={vin} vout={vout}"
+
+
+def _tx_str(tx: Tx) -> str:
+    vin = ",".join(f"{slot(i.prev_out.tx_id)}:{i.prev_out.vout}:{i.sequence}" for i in tx.vin)
+    vout = ",".join(f"{o.value}:{o.script_pub_key.script.hex()}" for o in tx.vout)
+    return f"ok ver=i{tx.version} lock={tx.lock_time} vin={vin} vout={vout}"
+
+
+def render_wire(p: Psbt) -> str:
+    """what a version 0 psbt IS on the wire, read off its own bytes with btclib's map readers: the transaction in
+    PSBT_GLOBAL_UNSIGNED_TX, and every map as `PsbtIn.parse` / `PsbtOut.parse` read it under psbt_version=0 (the
+    BIP370 fields are not there to be read: the maps are rendered without them)."""
+    from io import BytesIO
+    from btclib.psbt.psbt_utils import deserialize_map
+    if p.version != 0:
+        raise common.HarnessError("wirev0 asked of a psbt that is not version 0")
+    try:
+        raw = p.serialize()
+    except Exception as e:  # noqa: BLE001
+        return _err(e)
+    st = BytesIO(raw)
+    if st.read(5) != M.PSBT_MAGIC_BYTES:
+        raise common.HarnessError("no magic bytes")
+    gmap = deserialize_map(st)
+    tx = Tx.parse(gmap[M.PSBT_GLOBAL_UNSIGNED_TX], check_validity=False)
+    ins = [PsbtIn.parse(st, psbt_version=0) for _ in tx.vin]
+    outs = [PsbtOut.parse(st, psbt_version=0) for _ in tx.vout]
+    if st.read(1):
+        raise common.HarnessError("trailing bytes")
+    back = Psbt.parse(raw)          # the globals that are not BIP370's: read by the one reader there is
+    u = spec()["universe"]
+    es = [f"g0.{n}={slot(getattr(back, n))}" for n, _k, _p, v2 in u["glob"] if not v2]
+    for i, x in enumerate(ins):
+        es += [f"i{i}.{n}={slot(getattr(x, n))}" for n, _k, _p, v2 in u["in"] if not v2]
+    for i, x in enumerate(outs):
+        es += [f"o{i}.{n}={slot(getattr(x, n))}" for n, _k, _p, v2 in u["out"] if not v2]
+    return _tx_str(tx) + " maps=" + ",".join(es)
+
+
+def _sig_items(x, n):
+    v = getattr(x, n)
+    return list(v.items()) if isinstance(v, dict) else ([(None, v)] if v else [])
+
+
+def verdict_table(p: Psbt) -> str:
+    """the parameter V of the model: for every entry of every VERIFIED signature field of every input, does that one
+    signature verify -- asked of btclib's own two verifiers on a copy of the psbt holding that entry alone."""
+    names = spec()["signer"]["verified"]
+    es = []
+    for i, x in enumerate(p.inputs):
+        for n in names:
+            for k, val in _sig_items(x, n):
+                q = deepcopy(p)
+                y = q.inputs[i]
+                for m in names:
+                    setattr(y, m, {} if isinstance(getattr(y, m), dict) else b"")
+                setattr(y, n, val if k is None else {k: val})
+                try:
+                    M._assert_ecdsa_sigs_verify(y, q.tx, i, None)
+                    M._assert_taproot_sigs_verify(q, i, None)
+                    ok = 1
+                except BTClibValueError:
+                    ok = 0
+                es.append(f"{i}.{n}.{0 if k is None else _key(k)}:{ok}")
+    return "v" + ",".join(es)
+
+
+def origin_table(p: Psbt) -> str:
+    """the parameter O of the model: the master fingerprint the psbt attributes the key of each signature entry to,
+    looked up here independently of `new_signers` (BIP174 / BIP371 / BIP373 say where)."""
+    es = []
+    for i, x in enumerate(p.inputs):
+        for n in spec()["sigfields"]:
+            for k, _val in _sig_items(x, n):
+                if n == "partial_sigs":
+                    o = x.hd_key_paths.get(k)
+                elif n.startswith("musig2_"):
+                    o = x.hd_key_paths.get(k[:33])
+                elif n == "taproot_key_spend_signature":
+                    d = x.taproot_hd_key_paths.get(x.taproot_internal_key)
+                    o = d[1] if d else None
+                else:
+                    d = x.taproot_hd_key_paths.get(k[:32])
+                    o = d[1] if d else None
+                if o is not None:
+                    es.append(f"{i}.{n}.{0 if k is None else _key(k)}:{int.from_bytes(o.master_fingerprint, 'big')}")
+    return "o" + ",".join(es)
+
+
+def asigonly_line(req, ret):
+    return f"asigonly {render(req)} {render(ret)} {verdict_table(ret)} " + \
+        payload({"op": "asigonly", "request": req, "returned": ret})
+
+
+def asigned_line(p, allow_partial):
+    return f"asigned {int(allow_partial)} {render(p)} {verdict_table(p)} " + \
+        payload({"op": "asigned", "psbt": p, "allow_partial": allow_partial})
+
+
+def newsigners_line(req, ret):
+    return f"newsigners {render(req)} {render(ret)} {origin_table(ret)} " + \
+        payload({"op": "newsigners", "request": req, "returned": ret})
 
 
 # ------------------------------------------------------------------ seeds and families
@@ -243,9 +373,31 @@ def vendored():
     return res
 
 
+def script_path_input(rng, amount):
+    """a taproot input spendable by script path: internal key PRV[0], two `<key> OP_CHECKSIG` leaves of PRV[1], PRV[2]
+    (BIP371 fields: leaf scripts under their control blocks, the leaf keys filed under their tapleaf hashes, the
+    merkle root; half of the time the internal key's origin too, so that the key path can be signed as well)."""
+    from btclib.script import taproot as T
+    ik, lk = _pub(PRV[0]), [_pub(PRV[1]), _pub(PRV[2])]
+    scripts = [[k[1:].hex(), "OP_CHECKSIG"] for k in lk]
+    tree = [[(0xC0, scripts[0])], [(0xC0, scripts[1])]] if rng.random() < 0.7 else [(0xC0, scripts[0])]
+    n_leaves = 2 if len(tree) == 2 else 1
+    _, root = T.tree_helper(tree)
+    leaves, hd = {}, {}
+    for n in range(n_leaves):
+        sc, cb = T.input_script_sig(ik, tree, n)
+        sb = T.serialize(sc)
+        leaves[cb] = (sb, 0xC0)
+        hd[lk[n][1:]] = ([T.leaf_hash(0xC0, sb)], BIP32KeyOrigin(b"\xaa\xbb\xcc\xdd", f"m/86h/0h/0h/1/{n}"))
+    if rng.random() < 0.5:
+        hd[ik[1:]] = ([], BIP32KeyOrigin(b"\xaa\xbb\xcc\xdd", "m/86h/0h/0h/0/0"))
+    return PsbtIn(witness_utxo=TxOut(amount, ScriptPubKey.p2tr(ik, tree)), taproot_internal_key=ik[1:],
+                  taproot_merkle_root=root, taproot_leaf_scripts=leaves, taproot_hd_key_paths=hd)
+
+
 def built(rng, version, taproot=None):
     """a signable psbt built here: p2wpkh inputs (and, half of the time, a key-path p2tr one) with known keys."""
-    taproot = rng.random() < 0.5 if taproot is None else taproot
+    taproot = rng.choice([False, True, "script"]) if taproot is None else taproot
     n_in = rng.randrange(1, 4)
     vin, ins = [], []
     for i in range(n_in):
@@ -253,7 +405,9 @@ def built(rng, version, taproot=None):
         pk = _pub(prv)
         vin.append(TxIn(OutPoint(common.rand_bytes(rng, 32), rng.randrange(3)), b"",
                         rng.choice([0xFFFFFFFF, 0xFFFFFFFD, 0, 5])))
-        if taproot and i == 0:       # a key-path taproot input: schnorr signing, taproot finalizing
+        if taproot == "script" and i == 0:
+            pin = script_path_input(rng, 50_000 + i)
+        elif taproot and i == 0:       # a key-path taproot input: schnorr signing, taproot finalizing
             pin = PsbtIn(witness_utxo=TxOut(50_000 + i, ScriptPubKey.p2tr(pk)), taproot_internal_key=pk[1:],
                          taproot_hd_key_paths={pk[1:]: ([], BIP32KeyOrigin(b"\xaa\xbb\xcc\xdd", f"m/86h/0h/0h/0/{i}"))})
         else:
@@ -1080,6 +1234,216 @@ def _o_idle(w):
 ORACLES.update({"roles.idle": _o_idle})
 
 
+# ------------------------------------------------------------------ every function of the package that is handed a psbt
+ALIAS_MODULES = ["btclib.psbt.psbt", "btclib.psbt.psbt_view", "btclib.psbt.psbt_size", "btclib.psbt.musig2",
+                 "btclib.psbt.silent_payments", "btclib.psbt", "btclib.psbt_signer", "btclib.psbt_signer_contract",
+                 "btclib.tx_or_psbt"]
+# Updater functions that return None and are DOCUMENTED to write into the psbt they are handed (no result to be fresh)
+IN_PLACE = {"set_global_share", "set_input_share", "set_output_scripts", "Psbt.sort_inputs", "Psbt.sort_outputs"}
+
+
+def discovered_entries():
+    """{name: (kind, callable)} by introspection: every public function of the anchor modules with a parameter
+    annotated Psbt / Sequence[Psbt], every public method, property and alternative constructor of Psbt."""
+    import importlib
+    import inspect
+    import typing
+    out = {}
+    for mn in ALIAS_MODULES:
+        m = importlib.import_module(mn)
+        for name, f in sorted(vars(m).items()):
+            if name.startswith("_") or not inspect.isfunction(f) or not f.__module__.startswith("btclib."):
+                continue
+            try:
+                hints = typing.get_type_hints(f)
+            except Exception:  # noqa: BLE001
+                hints = dict(getattr(f, "__annotations__", {}))
+            if any("psbt.Psbt" in str(t) or str(t) in ("Psbt", "Sequence[Psbt]") for k, t in hints.items() if k != "return"):
+                out.setdefault(name, ("function", f))
+    for name, f in sorted(vars(Psbt).items()):
+        if name.startswith("_"):
+            continue
+        if isinstance(f, property):
+            out["Psbt." + name] = ("property", f)
+        elif isinstance(f, classmethod):
+            out["Psbt." + name] = ("constructor", getattr(Psbt, name))
+        elif inspect.isfunction(f):
+            out["Psbt." + name] = ("method", f)
+    return out
+
+
+def _arg_for(pname, ann, ps, state):
+    from btclib.curves.curve import secp256k1
+    a = str(ann)
+    if "Sequence[Psbt]" in a or "Sequence[btclib.psbt.psbt.Psbt]" in a:
+        state["used"] = list(ps)
+        return list(ps)
+    if a.endswith("psbt.Psbt'>") or a == "Psbt":
+        q = ps[len(state["used"]) % len(ps)]
+        state["used"].append(q)
+        return q
+    table = {"vin_i": 0, "key_manager": KM(PRV), "signer": StubSigner("full", PRV), "aggregate_pub_key": _pub(PRV[0]),
+             "participant_pub_key": _pub(PRV[1]), "prv_key": PRV[0], "prv_keys": [PRV[0]], "sec_nonce": bytearray(97),
+             "share": _pub(PRV[1]), "A_sum": secp256k1.G, "enforce_same_tx_version": False,
+             "enforce_same_tx_lock_time": False, "shuffle_inp": False, "shuffle_out": False}
+    if pname in table:
+        return table[pname]
+    raise common.HarnessError(f"roles.alias: no argument recipe for parameter `{pname}: {a}`")
+
+
+def _call_entry(name, ps):
+    """(operand psbts / operand data, thunk)"""
+    import inspect
+    import typing
+    kind, f = discovered_entries()[name]
+    p = ps[0]
+    if kind == "property":
+        return [p], lambda: f.fget(p)
+    if kind == "method":
+        return [p], lambda: f(p)
+    if kind == "constructor":
+        short = name.split(".")[1]
+        data = {"parse": lambda: p.serialize(), "b64decode": lambda: p.b64encode(), "from_dict": lambda: p.to_dict(),
+                "from_tx": lambda: p.tx}.get(short)
+        if data is None:
+            raise common.HarnessError(f"roles.alias: no recipe for the constructor {name}")
+        d = data()
+        return [d], lambda: f(d)
+    sig = inspect.signature(f)
+    try:
+        hints = typing.get_type_hints(f)
+    except Exception:  # noqa: BLE001
+        hints = dict(f.__annotations__)
+    state = {"used": []}
+    args, kwargs = [], {}
+    for pn, prm in sig.parameters.items():
+        if prm.default is not inspect.Parameter.empty:
+            continue
+        v = _arg_for(pn, hints.get(pn, prm.annotation), ps, state)
+        if prm.kind is inspect.Parameter.KEYWORD_ONLY:
+            kwargs[pn] = v
+        else:
+            args.append(v)
+    return state["used"], lambda: f(*args, **kwargs)
+
+
+def _snap(o):
+    if isinstance(o, Psbt):
+        return (render(o), o.serialize(check_validity=False))
+    if isinstance(o, Tx):
+        return o.serialize(include_witness=True, check_validity=False)
+    return repr(_deep_canon(o))
+
+
+def _deep_canon(o):
+    if isinstance(o, dict):
+        return sorted((repr(_deep_canon(k)), _deep_canon(v)) for k, v in o.items())
+    if isinstance(o, (list, tuple)):
+        return [_deep_canon(x) for x in o]
+    if isinstance(o, (bytes, bytearray)):
+        return bytes(o).hex()
+    return o if isinstance(o, (int, str, bool, type(None))) else repr(o)
+
+
+def _mutables(o, acc, depth=0):
+    """ids of every mutable object reachable from a result"""
+    if depth > 8 or isinstance(o, (bytes, str, int, bool, type(None))):
+        return acc
+    if isinstance(o, Psbt):
+        acc |= _mutable_ids(o)
+        return acc
+    frozen = dataclasses.is_dataclass(o) and not isinstance(o, type) and o.__dataclass_params__.frozen
+    if isinstance(o, (dict, list, set, bytearray, Tx, TxIn, PsbtIn, PsbtOut)) or \
+            (dataclasses.is_dataclass(o) and not isinstance(o, type) and not frozen):
+        acc.add(id(o))      # a frozen dataclass (TxOut, Witness, OutPoint, ...) may be shared: only what it holds counts
+    if isinstance(o, dict):
+        for v in o.values():
+            _mutables(v, acc, depth + 1)
+    elif isinstance(o, (list, tuple, set, frozenset)):
+        for v in o:
+            _mutables(v, acc, depth + 1)
+    elif dataclasses.is_dataclass(o) and not isinstance(o, type):
+        for f in dataclasses.fields(o):
+            _mutables(getattr(o, f.name, None), acc, depth + 1)
+    return acc
+
+
+def _scramble_any(o, depth=0):
+    """write into every mutable part of a result, whatever it is"""
+    if depth > 8:
+        return
+    if isinstance(o, Psbt):
+        _scramble(o)
+    elif isinstance(o, dict):
+        for v in list(o.values()):
+            _scramble_any(v, depth + 1)
+        try:
+            o["\xee" if any(isinstance(k, str) for k in o) or not o else b"\xee\xee"] = b"\xee"
+        except Exception:  # noqa: BLE001
+            pass
+    elif isinstance(o, list):
+        for v in list(o):
+            _scramble_any(v, depth + 1)
+        o.append(b"\xee")
+    elif isinstance(o, tuple):
+        for v in o:
+            _scramble_any(v, depth + 1)
+    elif isinstance(o, set):
+        o.add(b"\xee")
+    elif isinstance(o, bytearray):
+        o[:] = b"\xee" * len(o)
+    elif isinstance(o, (Tx, TxOut, TxIn, Witness, PsbtIn, PsbtOut)) or (dataclasses.is_dataclass(o) and not isinstance(o, type)):
+        for f in dataclasses.fields(o):
+            v = getattr(o, f.name, None)
+            _scramble_any(v, depth + 1)
+            try:
+                if isinstance(v, int) and not isinstance(v, bool):
+                    setattr(o, f.name, v + 1)
+                elif isinstance(v, (bytes, bytearray)):
+                    setattr(o, f.name, bytes(v) + b"\xee")
+            except Exception:  # noqa: BLE001 - frozen
+                pass
+
+
+def _o_alias_all(w):
+    """one entry point found by introspection, on real psbts: what it is handed is left as it was, what it hands
+    back shares no mutable object with it, and writing all over the result changes nothing of what was handed in."""
+    d = unpayload(w["payload"])
+    name, ps = w["entry"], d["psbts"]
+    operands, thunk = _call_entry(name, ps)
+    watched = list(ps) + [o for o in operands if not any(o is q for q in ps)]
+    before = [_snap(o) for o in watched]
+    ids = set()
+    for o in watched:
+        _mutables(o, ids)
+    try:
+        r = thunk()
+    except BTClibValueError as e:
+        ok = name in IN_PLACE or [_snap(o) for o in watched] == before
+        return ok, f"{name} refused ({str(e)[:50]}); arguments unchanged={ok}"
+    except Exception as e:  # noqa: BLE001
+        return False, f"{name} raised {type(e).__name__}: {e}"
+    if name in IN_PLACE:
+        return r is None, f"{name}: documented to update the psbt in place; returns {type(r).__name__}"
+    if name == "Psbt.from_tx":
+        # documented: the maps handed in are the maps to fill; the transaction is a Creator's input, not a psbt
+        return isinstance(r, Psbt), "from_tx: Creator (takes a transaction, fills the maps it is given)"
+    if [_snap(o) for o in watched] != before:
+        return False, f"{name} modified what it was handed"
+    if any(r is o for o in watched if not isinstance(o, (bytes, str, int))):
+        return False, f"{name} returned its own argument"
+    shared = _mutables(r, set()) & ids
+    if shared:
+        return False, f"{name} returned an object sharing {len(shared)} mutable parts with what it was handed"
+    _scramble_any(r)
+    if [_snap(o) for o in watched] != before:
+        return False, f"{name}: writing into the result changed what was handed in"
+    return True, f"{name}: fresh ({type(r).__name__})"
+
+
+ORACLES.update({"roles.alias-all": _o_alias_all})
+
+
 # ------------------------------------------------------------------ streams
 def exprs_for(rng, k, ctx):
     perms = list(itertools.permutations(range(k)))
@@ -1210,6 +1574,7 @@ def tamperings(rng, req: Psbt, ans: Psbt):
 def run(ctx):
     rng = ctx.rng
     fam_lines, conf_lines, tx_lines, conv_lines, sig_lines = [], [], [], [], []
+    wire_seeds = []
     GROUPING = "combine.locktime-partition.grouping"
     ctx.check("finding.locktime-grouping", {}, key=GROUPING)
     # ---- families whose REQUIRED LOCK TIMES are partitioned over the copies (v2)
@@ -1270,6 +1635,8 @@ def run(ctx):
             for fid in (False, True):
                 tx_lines.append(f"tx {render(p)} {int(fid)} " + payload({"op": "tx", "psbt": p, "for_id": fid}))
         p = ps[0]
+        wire_seeds.append(base)
+        wire_seeds.append(p)
         conv_lines.append(f"tov2 {render(p)} " + payload({"op": "tov2", "psbt": p}))
         if not any(o.sp_v0_info or o.sp_v0_label is not None for o in p.outputs) and \
                 not any(i.sp_ecdh_shares or i.sp_dleq_proofs for i in p.inputs) and \
@@ -1321,6 +1688,90 @@ def run(ctx):
     ctx.correspond("signer.sigonly", EXE, [(ln, impl(ln)) for ln in sig_lines],
                    nontrivial=lambda ln, out: True, key="signer.sigonly")
 
+    # ---- version 0 on the wire (fields folded into / read out of the unsigned transaction) and a signer's answer
+    #      read whole: assert_signatures_only with the verification, assert_signed, new_signers; script-path inputs
+    wire_lines, ans_lines = [], []
+
+    def wire(p):
+        if p.version != 0:
+            try:
+                p = p.to_v0()
+            except BTClibValueError:
+                return
+        tok = render(p)
+        wire_lines.append(f"wirev0 {tok} " + payload({"op": "wirev0", "psbt": p}))
+        wire_lines.append(f"readv0 {tok} " + payload({"op": "readv0", "psbt": p}))
+    for p in wire_seeds:
+        wire(p)
+    for _ in range(ctx.n(30, 300)):
+        kind = rng.choice([False, True, "script", "script"])
+        req = built(rng, rng.choice([0, 2]), taproot=kind)
+        ctx.count("answers", f"request taproot={kind} v{req.version}")
+        if rng.random() < 0.4:
+            req = sign(req, KM([rng.choice(PRV[:3])]))[0]
+        keys = rng.sample(PRV, rng.randrange(0, 4))
+        ans = sign(req, KM(keys))[0]
+        full = sign(req, KM(PRV))[0]
+        wire(ans)
+        cases = [("honest", req, ans), ("full", req, full), ("echo", req, deepcopy(req)), ("swapped", ans, req)]
+        # a signature that does not verify: one bit of one ADDED signature flipped (still well-formed)
+        for i, (a, r) in enumerate(zip(ans.inputs, req.inputs)):
+            for n in spec()["signer"]["verified"]:
+                for k, val in _sig_items(a, n):
+                    if (k is None and getattr(r, n)) or (k is not None and k in getattr(r, n)):
+                        continue
+                    bad = deepcopy(ans)
+                    pos = 40 if n != "partial_sigs" else len(val) - 4
+                    nv = val[:pos] + bytes([val[pos] ^ 1]) + val[pos + 1:]
+                    if k is None:
+                        setattr(bad.inputs[i], n, nv)
+                    else:
+                        getattr(bad.inputs[i], n)[k] = nv
+                    try:
+                        bad.assert_valid()
+                    except Exception:  # noqa: BLE001
+                        continue
+                    cases.append((f"bad {n}", req, bad))
+                    break
+        # a changed sig-hash type (in both, so that only `_assert_sig_hash_type` can object), a finalized answer,
+        # an origin nobody states
+        both = (deepcopy(req), deepcopy(full))
+        for q in both:
+            q.inputs[-1].sig_hash_type = rng.choice([1, 3, 0x81])
+        cases.append(("sighash stated", *both))
+        try:
+            cases.append(("finalized", req, finalize(full)))
+        except BTClibValueError:
+            pass
+        anon = (deepcopy(req), deepcopy(ans))
+        for q in anon:
+            for x in q.inputs:
+                if rng.random() < 0.5:
+                    x.hd_key_paths = {}
+                else:
+                    x.taproot_hd_key_paths = {k: v for k, v in x.taproot_hd_key_paths.items() if rng.random() < 0.5}
+        cases.append(("origin missing", *anon))
+        for what, bad in rng.sample(tamperings(rng, req, ans), min(3, len(tamperings(rng, req, ans)))):
+            cases.append(("tampered", req, bad))
+        for what, a, b in cases:
+            try:
+                a.assert_valid()
+                b.assert_valid()
+            except Exception:  # noqa: BLE001
+                continue
+            ctx.count("answers", what)
+            ans_lines.append(asigonly_line(a, b))
+            ans_lines.append(newsigners_line(a, b))
+            ans_lines.append(asigned_line(b, rng.random() < 0.5))
+            ans_lines.append(asigned_line(b, rng.random() < 0.5))
+    ctx.correspond("psbt.wire-v0", EXE, [(ln, impl(ln)) for ln in wire_lines], key="psbt.wire-v0")
+    ctx.correspond("signer.answers", EXE, [(ln, impl(ln)) for ln in ans_lines],
+                   nontrivial=lambda ln, out: True, key="signer.answers")
+    for cls in ("request taproot=script v0", "request taproot=script v2", "bad taproot_script_spend_signatures",
+                "bad partial_sigs", "finalized", "origin missing"):
+        if not ctx.hist.get("answers", {}).get(cls):
+            raise common.HarnessError(f"signer.answers: class `{cls}` was not generated")
+
     # ---- every role, every kind of signer: fresh objects
     for _ in range(ctx.n(12, 150)):
         p = built(rng, rng.choice([0, 2]))
@@ -1346,6 +1797,22 @@ def run(ctx):
             ctx.count("fresh", role + _a(arg))
             ctx.check("roles.fresh", {"payload": payload({"role": role, "arg": arg, "psbts": ps}),
                                       "role": role + _a(arg)}, key=f"roles.fresh.{role}")
+    # ---- every function btclib.psbt exposes that is handed a psbt (found by introspection), on signed psbts
+    entries = discovered_entries()
+    must = {"combine", "sign", "finalize", "join", "request_signatures", "assert_signatures_only", "assert_signed",
+            "new_signers", "extract_tx", "Psbt.to_v0", "Psbt.to_v2", "Psbt.tx", "Psbt.to_dict", "Psbt.from_dict", "Psbt.parse"}
+    if not must <= set(entries):
+        raise common.HarnessError(f"roles.alias: introspection lost {sorted(must - set(entries))}")
+    for _ in range(ctx.n(3, 30)):
+        kind = rng.choice([False, True, "script"])
+        p = built(rng, rng.choice([0, 2]), taproot=kind)
+        if p.version == 2:
+            p.tx_modifiable = 3
+        q = sign(p, KM(rng.sample(PRV, rng.randrange(1, 4))))[0]
+        for name in entries:
+            ctx.count("alias-all", name)
+            ctx.check("roles.alias-all", {"payload": payload({"psbts": [q, p]}), "entry": name},
+                      key=f"roles.alias.{name}")
     # ---- every entry point of the anchors, given nothing to do
     for _ in range(ctx.n(4, 40)):
         p = built(rng, rng.choice([0, 2]))
